@@ -152,7 +152,8 @@ def step (st : St) (toks : List String) : St × String :=
   | ["wtick", cs] =>
     match parseIncl cs with
     | some cs =>
-      let ts := cs.flatMap (tickTasks id st.hooks st.sys)
+      -- `cs` = the declared crontab strings the real parser reads as the schedule that is due
+      let ts := wallTickTasks (fun c => if cs.contains c then 1 else 0) id st.hooks st.sys 1
       (st, showQueues (place (st.queues.map (·, [])) ts))
     | none => (st, "bad-op")
   | ["oracle", "wtick", cs, ts] =>
